@@ -708,7 +708,8 @@ x
             who = newdist < dist[l]
             for  z in zip(newdist[who], l[who]):
                 heapq.heappush(dg, z)
-            dist[l[who]] = newdist[who]
+            # parallel edges: l may repeat a vertex, keep the smallest candidate
+            np.minimum.at(dist, l[who], newdist[who])
         return dist
 
     def compact_neighb(self):
